@@ -495,8 +495,75 @@ def gen_m2(rnd, tier):
                 lines.append('tp_upd name=%s b=%d e=%d clear=0' % (nm, we, we2))
         cases.append({'lines': lines, 'tags': {'family': fam, 'zone': zn, 'transition_window': bool(want_tr)}})
     cases += gen_month_family(random.Random(rnd.random()), tier)
+    cases += gen_transition_families(random.Random(rnd.random()), tier)
     cases += directed_m2()
     return cases
+
+
+def transitions(zn):
+    """[(instant, offset before, offset after)] of the zone's table that lie after T0"""
+    base, tab, _, _ = zone_table(zn)
+    out = []
+    o = base
+    for ti, oi in tab:
+        if ti >= T0 + 2 * 86400:
+            out.append((ti, o, oi))
+        o = oi
+    return out
+
+
+def gen_transition_families(rnd, tier):
+    """what the theorems leave to the comparison, aimed at EVERY transition of EVERY zone that has one:
+       m2-mktime          libc's mktime against tp_tab_mk for local times before / at / inside / after every skipped or
+                          repeated hour (the oracle only asks that an exactly-once local time is mapped to its instant)
+       m2-nth-transition  n-th weekday specifications whose day-by-day search (forward from the 1st, backward from the
+                          last day of the month) walks over the transition day, windows around the day found"""
+    import calendar
+    out = []
+    reps = {'quick': 1, 'thorough': 4, 'search': 2}.get(tier, 1)
+    for zn in ZONES:
+        for ti, ob, oa in transitions(zn):
+            lo, hi = ti + min(ob, oa), ti + max(ob, oa)
+            kind = 'skipped' if oa > ob else 'repeated'
+            for _ in range(reps):
+                ls = [lo - 86400, lo - 1, lo, lo + 1, (lo + hi) // 2, rnd.randint(lo, hi - 1), hi - 1, hi, hi + 1, hi + 86400,
+                      lo - lo % 86400, lo - lo % 86400 + 86400] + [rnd.randint(lo - 2 * 86400, hi + 2 * 86400) for _ in range(6)]
+                out.append({'lines': ['now %d' % T0, tz_line(zn, ti - 5 * 86400, ti + 5 * 86400), 'tp_mk l=' + ','.join(str(x) for x in ls)],
+                            'tags': {'family': 'm2-mktime', 'zone': zn, 'mk_kind': kind, 'mk_inside': sum(1 for x in ls if lo <= x < hi)}})
+            # the local date of the transition
+            Dt = datetime.date(1970, 1, 1) + datetime.timedelta(days=(ti + ob) // 86400)
+            dim = calendar.monthrange(Dt.year, Dt.month)[1]
+            for _ in range(2 * reps):
+                for direction in ('forward', 'backward'):
+                    if direction == 'forward':
+                        cand = [d for d in range(Dt.day, dim + 1)]           # found on or after the transition day
+                    else:
+                        cand = [d for d in range(1, Dt.day + 1)]             # found on or before it, counting from the end
+                    if not cand:
+                        continue
+                    day = rnd.choice(cand)
+                    tgt = datetime.date(Dt.year, Dt.month, day)
+                    wd = (tgt.weekday() + 1) % 7
+                    nth = (day - 1) // 7 + 1 if direction == 'forward' else -((dim - day) // 7 + 1)
+                    with_month = rnd.random() < 0.5
+                    first = ('w', wd, nth, Dt.month - 1 if with_month else -1)
+                    last = None
+                    if rnd.random() < 0.3:
+                        last = ('w', (wd + rnd.randint(0, 2)) % 7, nth, Dt.month - 1 if with_month else -1)
+                    s_, a_ = daydef(first, last, 1, rnd)
+                    d0 = days_from_civil(tgt.year, tgt.month, tgt.day)
+                    # keep the window inside the month when the month is taken from the reference day
+                    wb = mk_local(zn, max(d0 - rnd.choice((0, 1)), days_from_civil(Dt.year, Dt.month, 1)) * 86400) + rnd.choice((0, 3600 * 7, 43200))
+                    we = min(wb + rnd.choice((86400, 2 * 86400)), mk_local(zn, days_from_civil(Dt.year, Dt.month, dim) * 86400 + 86399))
+                    if we <= wb:
+                        we = wb + 3600
+                    trs = rand_times(rnd, zn, rnd.choice(('one', 'allday', 'to24')))
+                    lines = ['now %d' % T0, tz_line(zn, wb - 5 * 86400, we + 5 * 86400),
+                             'tp_pts ' + ','.join(str(p) for p in cal_probes(zn, wb, we, trs)), 'tp_new name=a',
+                             range_line('a', s_, a_, trs, rnd), 'tp_upd name=a b=%d e=%d clear=1' % (wb, we)]
+                    out.append({'lines': lines, 'tags': {'family': 'm2-nth-transition', 'zone': zn, 'nth_direction': direction,
+                                                        'nth_crosses_transition': True}})
+    return out
 
 
 def gen_month_family(rnd, tier):
@@ -753,7 +820,29 @@ def extra_stats(cases, impl):
     for c in cases:
         names = {l.split('name=')[1].split()[0] for l in c['lines'] if l.startswith('tp_range ')}
         hyp_steps += sum(1 for l in c['lines'] if l.startswith('tp_upd ') and l.split('name=')[1].split()[0] in names)
+    per_zone = {}
+    for zn in ZONES:
+        zc = [c for c in cases if c['tags'].get('zone') == zn]
+        per_zone[zn] = {
+            'transitions_in_table_after_T0': len(transitions(zn)),
+            'day_loop_windows_placed_on_transition_days': sum(1 for c in zc if c['tags'].get('transition_window')),
+            'nth_weekday_searches_walking_over_a_transition_day': sum(1 for c in zc if c['tags'].get('nth_crosses_transition')),
+            'mktime_cases(one per transition)': sum(1 for c in zc if c['tags'].get('family') == 'm2-mktime'),
+            'mktime_queries_inside_a_skipped_hour': sum(c['tags'].get('mk_inside', 0) for c in zc if c['tags'].get('mk_kind') == 'skipped'),
+            'mktime_queries_inside_a_repeated_hour': sum(c['tags'].get('mk_inside', 0) for c in zc if c['tags'].get('mk_kind') == 'repeated'),
+            'named_month_cases': sum(1 for c in zc if c['tags'].get('family') == 'm2-month-name'),
+        }
+    mrel = collections.Counter(c['tags'].get('month_rel') for c in cases if c['tags'].get('family') == 'm2-month-name')
+    mform = collections.Counter(c['tags'].get('month_form') for c in cases if c['tags'].get('family') == 'm2-month-name')
     return {'zones': dict(zones), 'windows_on_dst_transition_days': trw,
+            'compared_only_per_zone': {
+                'what': 'not covered by a theorem and therefore aimed at every transition of every zone that has one: mktime for local times '
+                        'inside a skipped / repeated hour (libc primed with the local time two days earlier, against tp_tab_mk); proved only under '
+                        '"the local midnights asked about exist exactly once" and additionally compared here: the day loop and the n-th weekday '
+                        'search walking over a transition day (C08_day_loop_mktime, C08_nth_weekday_mktime)',
+                'zones': per_zone},
+            'named_month_family': {'window_relative_to_named_month': dict(mrel), 'forms': dict(mform),
+                                   'leap_year_february_windows': sum(1 for c in cases if c['tags'].get('leap_feb'))},
             'calendar_hypotheses_checked_by_computation': {
                 'what': 'per UpdateRegion on a LegacyTimePeriod period the oracle evaluates tp_cal_hyps_ok: the offset table is ascending with transitions >= 2 days apart and |offset| < 24 h (tp_tab_ok), and every local time mktime is asked about for the window (00:00 of the visited days, of the day after the last one and of each day definition\'s first / day-after-last day, both boundaries of every time range) exists exactly once and tp_tab_mk returns its instant (tp_tab_good_b); a failure is an oracle hit of class calendar-hypotheses',
                 'update_steps_checked': hyp_steps, 'failures': 'none unless an oracle hit of class calendar-hypotheses is reported'},
